@@ -302,9 +302,6 @@ def gen_handlers(rng, tier, for_corr=False):
         sub = random.Random(rng.random())
         xml = D.print_dtree(d, sub if rng.random() < 0.8 else None, set(noise), decl=rng.random() < 0.3)
         if for_corr:
-            # the listed findings live in the oracle's stream only
-            if wrapper_declares(xml):
-                continue
             yield {"ctx": ctx, "tree": clean_tree(xml), "xml": xml, "clazz": "Root", "config": rng.choice(CONFIGS),
                    "noise": noise, "kind": kind, "desc": desc, "_uni": u.modname}
             continue
@@ -328,7 +325,7 @@ def impl_parse_all(a):
     if a.get("kind") == "valid" and cfg.get("fail_on_unknown_properties", True) and "ok" in ref:
         _, en, mn = D.real_events(u, clazz, xml, "native", "bytes", cfg)
         _, el, ml = D.real_events(u, clazz, xml, "lxml", "bytes", cfg)
-        ev = (en == el and mn == ml) or bool(set(a.get("noise") or []) & {"text_pi", "tail_pi"})
+        ev = en == el and mn == ml
     return {"results": res, "events_equal": ev, "et_excluded": prefix_sensitive([ref, res["lxml/bytes"]], xml)}
 
 
@@ -339,12 +336,6 @@ def cmp_parse_all(mo, io, a):
     noise = set(a.get("noise") or [])
     for k, r in io["results"].items():
         if k.startswith("native/et_") and io["et_excluded"]:
-            continue
-        # listed finding C08-lxml-pi-text: a PI inside character data (all lxml sources),
-        # a comment inside character data (lxml tree / element sources)
-        if noise & {"text_pi", "tail_pi"} and k.startswith("lxml/"):
-            continue
-        if noise & {"text_c", "tail_c"} and k in ("lxml/lxml_tree", "lxml/lxml_element"):
             continue
         if r != ref:
             return False
@@ -419,31 +410,8 @@ def oracle_handlers(a):
     return None
 
 
-def wrapper_declares(xml):
-    from lxml import etree
-
-    try:
-        root = etree.fromstring(xml.encode())
-    except etree.XMLSyntaxError:
-        return False
-    for el in root.iter():
-        if isinstance(el.tag, str) and etree.QName(el).localname.startswith("wrap"):
-            par = el.getparent()
-            if par is not None and el.nsmap != par.nsmap:
-                return True
-    return False
-
-
 def covered_handlers(a, msg):
-    noise = set(a.get("noise") or [])
-    # the listed defect: a PI inside character data (every lxml source), a comment only for lxml tree sources
-    if noise & {"text_pi", "tail_pi"} and "<?pi" in a["xml"] and msg.startswith("lxml/"):
-        return "C08-lxml-pi-text"
-    if noise & {"text_c", "tail_c"} and "<!--" in a["xml"] and msg.startswith(("lxml/lxml_tree", "lxml/lxml_element")):
-        return "C08-lxml-pi-text"
-    if wrapper_declares(a["xml"]) and ("native/" in msg or "event streams" in msg or msg.startswith("lxml/")):
-        return "C08-wrapper-nsdecl"
-    return None
+    return None  # no listed finding of the handlers is left
 
 
 ORACLES = [
@@ -483,6 +451,7 @@ def _any():
     return AnyElement
 
 
+<<<<<<< HEAD
 def finding_pi_text():
     from xsdata.formats.dataclass.parsers import XmlParser
     from xsdata.formats.dataclass.parsers.handlers import LxmlEventHandler, XmlEventHandler
@@ -491,6 +460,21 @@ def finding_pi_text():
     n = XmlParser(handler=XmlEventHandler).from_bytes(doc, _any()).children
     l = XmlParser(handler=LxmlEventHandler).from_bytes(doc, _any()).children
     return n != l, f"native {n!r} lxml {l!r}"
+=======
+def finding_native_cr():
+    from lxml import etree
+
+    from xsdata.formats.dataclass.serializers import XmlSerializer
+    from xsdata.formats.dataclass.serializers.writers import LxmlEventWriter, XmlEventWriter
+
+    AnyElement = _any()
+    o = AnyElement(qname="r", children=[AnyElement(qname="a", text="x\ry")])
+    out = {}
+    for name, w in (("native", XmlEventWriter), ("lxml", LxmlEventWriter)):
+        xml = XmlSerializer(writer=w).render(o)
+        out[name] = etree.fromstring(xml.encode()).find("a").text
+    return out["native"] != out["lxml"], repr(out)
+>>>>>>> c09c
 
 
 def finding_indent_mixed():
@@ -509,31 +493,13 @@ def finding_indent_mixed():
     return out["native"] != out["lxml"], repr(out)
 
 
-def finding_wrapper_nsdecl():
-    from dataclasses import dataclass, field
-    from xml.etree.ElementTree import QName
-
-    from xsdata.formats.dataclass.parsers import XmlParser
-    from xsdata.formats.dataclass.parsers.handlers import LxmlEventHandler, XmlEventHandler
-
-    @dataclass
-    class Root:
-        a: list[QName] = field(default_factory=list, metadata={"type": "Element", "wrapper": "wrapa"})
-
-    import warnings
-
-    doc = b'<Root><wrapa xmlns:p="urn:x"><a>p:foo</a></wrapa></Root>'
-    with warnings.catch_warnings():
-        warnings.simplefilter("ignore")
-        n = XmlParser(handler=XmlEventHandler).from_bytes(doc, Root).a
-        l = XmlParser(handler=LxmlEventHandler).from_bytes(doc, Root).a
-    return n != l, f"native {n!r} lxml {l!r}"
-
-
 FINDINGS = {
+<<<<<<< HEAD
     "C08-lxml-pi-text": finding_pi_text,
+=======
+    "C08-native-cr": finding_native_cr,
+>>>>>>> c09c
     "C08-indent-mixed": finding_indent_mixed,
-    "C08-wrapper-nsdecl": finding_wrapper_nsdecl,
 }
 
 TRUSTED = [
@@ -550,6 +516,7 @@ ASSUMPTIONS = [
 ]
 LEVEL_TEXT = "proof for the Python glue of the back-ends (indentation bookkeeping, prefix-map reconstruction); agreement with the C back-ends by correspondence"
 LEVEL_NOTE = (
-    "indent_ws_only / native_nsmap_inscope are proved for all event lists / documents of the model; the full-strength statements are "
-    "refuted by witnesses that the real code shows too (mixed content under indentation, declarations on wrapper elements)"
+    "native_nsmap_inscope holds at full strength for all documents of the model (the handler keeps the in-scope maps itself); "
+    "indent_ws_only is proved for all event lists without mixed content, the full-strength statement is refuted by a witness "
+    "that the real code shows too (mixed content under indentation)"
 )
